@@ -466,9 +466,10 @@ class _ChildrenList(_TaskList):
         :raises RuntimeError: if WBS integrity lost (i.e. task with same ID already exists)
         """
         _check_not_none(task, 'Task')
+        anchor = self._list[index] if -len(self._list) <= index < len(self._list) else None
         task.parent = self.__parent
-        if len(self) > 0:
-            self.move(task, before=self[index])
+        if anchor is not None and anchor is not task:
+            self.move(task, before=anchor)
 
     def move(self, tasks: Union['Task', Iterable['Task']], before: Optional['Task'] = None,
              after: Optional['Task'] = None) -> None:
